@@ -2,7 +2,8 @@
    The successive leftmost non-overlapping matches of the pattern over the WHOLE input (find_at
    with the whole input as haystack) decide which lines are "matched": a line is matched iff it
    holds a byte of some match, or an empty match sits in it (the end-of-input position belongs to
-   an unterminated last line).  Consecutive matched lines are delivered as one block.  Context,
+   an unterminated last line).  Consecutive matched lines are delivered as one block; an inverted
+   search reports exactly the other lines, each as its own event.  Context,
    separators, numbering and offsets are those of the grep model (Spec/GrepSpec.v). *)
 From RG Require Import Base.Bytes Model.Lines Model.SearcherCore Spec.GrepSpec.
 
@@ -46,9 +47,12 @@ Section MLS.
     map (fun sp => let '(ls, le, t) := sp in existsb (covers (length s) ls le t) ms)
         (line_spans (lt_byte (c_lt cfg)) (split_lines (lt_byte (c_lt cfg)) s) 0).
 
-  (* inverted search: lines before the first line of the next match are the results; the search
-     resumes after the last line of that match *)
-  Fixpoint inv_flags (fuel : nat) (s : bytes) (spans : list (nat * nat * bool)) (p : nat) : list bool :=
+  (* PINNED: the flags of the inverted search as the code computed them before the repair of
+     MultiLine::sink_matched_inverted (Proofs/MLPinned.v): lines before the first line of the next
+     match are the results and the search resumed after the LAST LINE of that match — so a
+     following match starting on that line, after the first one's end, was never found and its
+     lines were reported although they match.  Not used by ml_ref any more. *)
+  Fixpoint inv_flags_pinned (fuel : nat) (s : bytes) (spans : list (nat * nat * bool)) (p : nat) : list bool :=
     match fuel with
     | 0 => map (fun _ => false) spans
     | S f =>
@@ -67,7 +71,7 @@ Section MLS.
           let cov := filter (fun sp => let '(ls, le, t) := sp in covers (length s) ls le t m) rest in
           let rest' := skipn (length cov) rest in
           let p' := match rev cov with (_, le, _) :: _ => le | [] => p + 1 end in
-          map (fun _ => true) before ++ map (fun _ => false) cov ++ inv_flags f s rest' (Nat.max p' (p + 1))
+          map (fun _ => true) before ++ map (fun _ => false) cov ++ inv_flags_pinned f s rest' (Nat.max p' (p + 1))
         end
       end
     end.
@@ -96,11 +100,14 @@ Section MLS.
     | [] => []
     end.
 
+  (* inversion reports exactly the other lines: the complement of the lines overlapped by the
+     successive matches — the SAME matches as the non-inverted search (ml_matches) *)
+  Definition ml_flags (s : bytes) : list bool :=
+    let flags := matched_flags s (ml_matches (S (length s)) s 0) in
+    if c_invert cfg then map negb flags else flags.
+
   Definition ml_ref (s : bytes) : list event :=
-    let spans := line_spans (lt_byte (c_lt cfg)) (split_lines (lt_byte (c_lt cfg)) s) 0 in
-    let flags := if c_invert cfg then inv_flags (S (length s)) s spans 0
-                 else matched_flags s (ml_matches (S (length s)) s 0) in
-    let st := line_events s flags in
+    let st := line_events s (ml_flags s) in
     let evs := rev (g_out st) in
     EBegin :: (if c_invert cfg then evs else group_matched evs) ++ [EFinish (length s) None].
 End MLS.
